@@ -20,6 +20,8 @@ panic.c, backtrace.c under ASan/UBSan.
   back), longest deliverable payload (2047), DLCIs with an escaped address octet, a second
   over-long frame.  A payload of >= 2048 octets must never reach a handler; a panic / abort /
   sanitizer death is reported as C06:dlci=0x..:after-overlong:crash.
+* Transmit backlog: 255 / 256 / 257 / 512 messages queued (one DLCI; two DLCIs alternating; behind one message of
+  a lower DLCI; while a frame is already on the wire), then drained: exactly once, in order, transmitter idle after.
 * DLCI 128 (built-in echo, handler = sercomm_sendmsg): every payload of length 0..2; the echo is
   pulled and judged on the wire, not fed back.
 """
@@ -184,6 +186,7 @@ def run(ctx):
         jobs += [("sweep[dlci %d]" % d, ["sweep", d, d + 1, maxlen], tmo) for d in range(128)]
         jobs += [("resync[%d/%d]" % (i, RESYNC_PARTS), ["resync", i, RESYNC_PARTS], tmo) for i in range(RESYNC_PARTS)]
         jobs.append(("echo", ["echo"], tmo))
+        jobs.append(("backlog", ["backlog"], tmo))
         results = ctx.pmap(_job, jobs)
 
         c = ctx.cov
@@ -191,7 +194,7 @@ def run(ctx):
                 "noise_transitions", "overlong_transitions", "states_out_of_sync", "states_mid_frame")
         other = ("transfers", "special_tuples", "boundary_cases", "resync_scenarios", "echo_cases", "frames", "exact_deliveries",
                  "tolerated_deliveries", "wire_octets", "escapes", "noise_octets", "overlong_frames", "dlcis",
-                 "echoes_queued", "scenarios_abandoned_in_window", "history_dependent_keys", "verify_requests",
+                 "echoes_queued", "scenarios_abandoned_in_window", "backlog_cases", "backlog_frames", "history_dependent_keys", "verify_requests",
                  "sampled_traces_rerun_alone", "sampled_traces_differing")
         for k in sums + other:
             c[k] = 0
@@ -227,7 +230,8 @@ def run(ctx):
         # exhaustive = every stated finite space was enumerated completely (a BFS run that stops at its stated depth
         # bound is complete within that bound); cases cut short by a violation do not count as a hole
         c["exhaustive"] = bool(complete and len(bfs) == len(cfgs) and c["dlcis"] == 128 and c["transfers"] == c["transfers_expected"]
-                               and c["resync_scenarios"] == c["resync_scenarios_expected"] and c["echo_cases"] == 1 + 256 + 65536 + 9)
+                               and c["resync_scenarios"] == c["resync_scenarios_expected"] and c["echo_cases"] == 1 + 256 + 65536 + 9
+                               and c["backlog_cases"] == 16)
         c["distinct_outcomes"] = {"exact_deliveries": c["exact_deliveries"], "deliveries_inside_tolerance_window": c["tolerated_deliveries"],
                                   "frames_on_wire": c["frames"], "escaped_octets": c["escapes"]}
         ctx.sample({"space_A_events": "s9.410042,p,p,s5.7e,p,p,p,p,p,p,p", "meaning": "send on DLCI 9, two octets out, send on DLCI 5 mid-frame, drain"})
